@@ -32,7 +32,7 @@ PROPS = {
                      "that rayon executes exactly the (src band, dst band) tasks the split returns", "Send/Sync promise of UnsafeImageMut"],
     ),
     "C11": dict(
-        units=["G7"],
+        units=["G7", "P"],
         level="proof",
         level_text="The source column/row chosen for a destination pixel is a postcondition of the index computation, discharged "
                    "for every accepted f64 crop box and every u32 size by loop-free Kani harnesses on the verbatim slice; the "
